@@ -1,9 +1,13 @@
 //! C20: readiness tokens. One real event loop (`EventLoops` with one loop), caller-named coroutines
-//! (so their ids are known 64-bit values) waiting for read readiness of socketpair ends, the harness
-//! thread making descriptors readable. Observed: the token the OS holds for the descriptor
-//! (`/proc/self/fdinfo/<epoll fd>`), the token the loop reads back from the event and whether it hit
-//! `COROUTINE_TOKENS` (hook H5), and which coroutines were resumed by the event (state listener).
-//! One case per process (`ISOLATE`): `EventLoops` and the record maps are process-global.
+//! (so their ids are known 64-bit values) waiting for read or write readiness of socketpair ends
+//! pinned to fixed descriptor numbers, the harness thread making descriptors readable (a byte from
+//! the peer) or writable (every slot's send buffer is kept full; draining the peer makes it
+//! writable), deleting interests, closing descriptors through the hooked `close` and opening a new
+//! socket on the same number. Observed: what the OS holds for the descriptor
+//! (`/proc/self/fdinfo/<epoll fd>`: interest bits and token), the token the loop reads back from the
+//! event and whether it hit `COROUTINE_TOKENS` (hook H5), and which coroutines were resumed by the
+//! event (state listener). One case per process (`ISOLATE`): `EventLoops` and the record maps are
+//! process-global.
 use crate::util::as_u64;
 use open_coroutine_core::common::constants::{CoroutineState, SyscallName, SyscallState};
 use open_coroutine_core::config::Config;
@@ -11,6 +15,7 @@ use open_coroutine_core::coroutine::listener::Listener;
 use open_coroutine_core::coroutine::local::CoroutineLocal;
 use open_coroutine_core::net::EventLoops;
 use open_coroutine_core::scheduler::{SchedulableCoroutine, SchedulableCoroutineState};
+use open_coroutine_core::syscall;
 use open_coroutine_core::verif;
 use serde_json::{json, Value};
 use std::collections::HashSet;
@@ -97,20 +102,75 @@ pub fn epoll_fds() -> Vec<i32> {
     v
 }
 
-fn socketpair() -> (i32, i32) {
-    let mut sv = [0i32; 2];
-    let r = unsafe { libc::socketpair(libc::AF_UNIX, libc::SOCK_STREAM, 0, sv.as_mut_ptr()) };
-    assert_eq!(r, 0, "socketpair");
-    (sv[0], sv[1])
+/// first descriptor number of the slots (socketpair ends pinned with `dup2`)
+const BASE: i32 = 240;
+
+struct Slot {
+    open: bool,
+    peer: i32,
 }
 
+fn slot_fd(k: usize) -> i32 {
+    BASE + i32::try_from(k).expect("slot")
+}
+
+/// send until the send buffer is full: afterwards `fd` is not writable. Large chunks, so that every
+/// queued buffer is bigger than the "writable again" threshold (a quarter of the send buffer) and
+/// only the release of the last one makes the socket writable.
+fn fill(fd: i32) {
+    let buf = vec![0x55u8; 65536];
+    loop {
+        let n = unsafe {
+            libc::send(fd, buf.as_ptr().cast(), buf.len(), libc::MSG_DONTWAIT | libc::MSG_NOSIGNAL)
+        };
+        if n <= 0 {
+            break;
+        }
+    }
+}
+
+/// read everything that is queued on `fd`
 fn drain(fd: i32) {
-    let mut buf = [0u8; 64];
+    let mut buf = vec![0u8; 1 << 20];
     loop {
         let n = unsafe { libc::recv(fd, buf.as_mut_ptr().cast(), buf.len(), libc::MSG_DONTWAIT) };
         if n <= 0 {
             break;
         }
+    }
+}
+
+/// a fresh socketpair whose first end sits at descriptor number `BASE + k`, with the smallest send
+/// buffer the OS grants, filled; returns the peer
+fn open_slot(k: usize) -> i32 {
+    let mut sv = [0i32; 2];
+    let r = unsafe { libc::socketpair(libc::AF_UNIX, libc::SOCK_STREAM, 0, sv.as_mut_ptr()) };
+    assert_eq!(r, 0, "socketpair");
+    let target = slot_fd(k);
+    assert_eq!(unsafe { libc::dup2(sv[0], target) }, target, "dup2");
+    unsafe {
+        let _ = libc::close(sv[0]);
+    }
+    let one: libc::c_int = 1;
+    let r = unsafe {
+        libc::setsockopt(
+            target,
+            libc::SOL_SOCKET,
+            libc::SO_SNDBUF,
+            std::ptr::from_ref(&one).cast(),
+            libc::socklen_t::try_from(std::mem::size_of::<libc::c_int>()).expect("len"),
+        )
+    };
+    assert_eq!(r, 0, "SO_SNDBUF");
+    fill(target);
+    sv[1]
+}
+
+/// what the OS holds for `fd`: `[read interest, write interest, token]` or null
+fn kview(epfd: i32, fd: i32) -> Value {
+    match epoll_entry(epfd, fd) {
+        Some((ev, data)) => json!([ev & 1 != 0, ev & 4 != 0, data.to_string()]),
+        None => Value::Null,
     }
 }
 
@@ -144,14 +204,19 @@ impl Ctx {
         }
     }
 
-    fn spawn(&self, name: &str, id: u64, fd: i32, wait: Duration) -> Result<(), String> {
+    fn spawn(&self, name: &str, id: u64, fd: i32, write: bool, wait: Duration) -> Result<(), String> {
         let tx = self.tx.clone();
         let mut co = SchedulableCoroutine::new(
             Some(name.to_string()),
             move |_, ()| {
                 if let Some(co) = SchedulableCoroutine::current() {
-                    let _ = co.syscall((), SyscallName::recv, SyscallState::Executing);
-                    let r = EventLoops::wait_read_event(fd, Some(wait));
+                    let call = if write { SyscallName::send } else { SyscallName::recv };
+                    let _ = co.syscall((), call, SyscallState::Executing);
+                    let r = if write {
+                        EventLoops::wait_write_event(fd, Some(wait))
+                    } else {
+                        EventLoops::wait_read_event(fd, Some(wait))
+                    };
                     let _ = co.running();
                     let _ = tx.send(Msg::Returned(id, r.is_ok()));
                 }
@@ -171,7 +236,46 @@ impl Ctx {
 
 const LONG: Duration = Duration::from_secs(60);
 const SHORT: Duration = Duration::from_millis(30);
-const PATIENCE_MS: u64 = 4000;
+/// how long the harness waits for a message that must come; when it does not (a loaded machine, or
+/// a real loss) the case ends with `"diverged"`, which the driver re-runs alone before it counts
+const PATIENCE_MS: u64 = 10_000;
+
+/// wait for the event the loop is about to process, the coroutines it resumes and their return
+fn observe_event(cx: &mut Ctx) -> Value {
+    match cx.wait_for(PATIENCE_MS, |m| matches!(m, Msg::Resume(_, _)), |_| {}) {
+        Some(Msg::Resume(tok, hit)) => {
+            let mut woken: Vec<u64> = Vec::new();
+            let end = cx.wait_for(
+                PATIENCE_MS,
+                |m| *m == Msg::Resumed(tok),
+                |m| {
+                    if let Msg::Callback(c) = m {
+                        woken.push(*c);
+                    }
+                },
+            );
+            if end.is_none() {
+                return json!("lost");
+            }
+            // let every resumed coroutine finish its wait before the next step
+            let mut all_back = true;
+            for c in &woken {
+                if cx.suspended.contains(c) {
+                    let c = *c;
+                    let r = cx.wait_for(PATIENCE_MS, |m| matches!(m, Msg::Returned(i, _) if *i == c), |_| {});
+                    all_back &= r.is_some();
+                }
+            }
+            if all_back {
+                let w: Vec<String> = woken.iter().map(u64::to_string).collect();
+                json!({"event": tok.to_string(), "hit": hit, "woken": w})
+            } else {
+                json!("lost")
+            }
+        }
+        _ => json!("lost"),
+    }
+}
 
 pub fn run(case: &Value) -> Vec<Value> {
     let nfd = usize::try_from(as_u64(&case["nfd"])).expect("nfd");
@@ -181,7 +285,7 @@ pub fn run(case: &Value) -> Vec<Value> {
         return vec![json!(format!("setup:epoll-fds:{}", eps.len()))];
     }
     let epfd = eps[0];
-    let pairs: Vec<(i32, i32)> = (0..nfd).map(|_| socketpair()).collect();
+    let mut slots: Vec<Slot> = (0..nfd).map(|k| Slot { open: true, peer: open_slot(k) }).collect();
     let (tx, rx) = channel::<Msg>();
     {
         let otx = Mutex::new(tx.clone());
@@ -200,16 +304,22 @@ pub fn run(case: &Value) -> Vec<Value> {
     let mut obs = Vec::new();
     for op in case["ops"].as_array().expect("ops") {
         let kind = op["op"].as_str().expect("op");
+        let k = usize::try_from(as_u64(&op["fd"])).expect("fd");
+        if k >= nfd {
+            obs.push(json!("bad-slot"));
+            continue;
+        }
+        let fd = slot_fd(k);
+        let write = op["dir"].as_str() == Some("w");
         let o = match kind {
             "wait" | "waitt" => {
                 let id = as_u64(&op["id"]);
                 let name = op["name"].as_str().expect("name");
-                let fd = pairs[usize::try_from(as_u64(&op["fd"])).expect("fd")].0;
                 if cx.suspended.contains(&id) {
                     json!("busy")
                 } else {
                     let short = kind == "waitt";
-                    match cx.spawn(name, id, fd, if short { SHORT } else { LONG }) {
+                    match cx.spawn(name, id, fd, write, if short { SHORT } else { LONG }) {
                         Err(e) => json!(format!("spawn:{e}")),
                         Ok(()) => {
                             let first = cx.wait_for(
@@ -217,19 +327,19 @@ pub fn run(case: &Value) -> Vec<Value> {
                                 |m| *m == Msg::Suspended(id) || matches!(m, Msg::Returned(i, _) if *i == id),
                                 |_| {},
                             );
-                            let data = epoll_entry(epfd, fd).map(|(_, d)| d.to_string());
+                            let kv = kview(epfd, fd);
                             match first {
                                 None => json!("lost"),
                                 Some(Msg::Returned(_, ok)) => {
                                     if short {
-                                        json!({"regt": ok, "data": data, "timeout": false})
+                                        json!({"regt": ok, "k": kv, "timeout": false})
                                     } else {
-                                        json!({"reg": false, "data": data})
+                                        json!({"reg": false, "k": kv})
                                     }
                                 }
                                 Some(_) if !short => {
                                     let _ = cx.suspended.insert(id);
-                                    json!({"reg": true, "data": data})
+                                    json!({"reg": true, "k": kv})
                                 }
                                 Some(_) => {
                                     let _ = cx.suspended.insert(id);
@@ -245,7 +355,7 @@ pub fn run(case: &Value) -> Vec<Value> {
                                     );
                                     match fin {
                                         Some(Msg::Returned(_, ok)) => {
-                                            json!({"regt": ok, "data": data, "timeout": by_timeout})
+                                            json!({"regt": ok, "k": kv, "timeout": by_timeout})
                                         }
                                         _ => json!("lost"),
                                     }
@@ -255,11 +365,13 @@ pub fn run(case: &Value) -> Vec<Value> {
                     }
                 }
             }
-            "ready" => {
-                let (a, b) = pairs[usize::try_from(as_u64(&op["fd"])).expect("fd")];
-                let registered = epoll_entry(epfd, a).is_some_and(|(ev, _)| ev & 1 != 0);
+            "ready" if !slots[k].open => json!("noevent"),
+            "ready" if !write => {
+                // one byte from the peer: the slot becomes readable (it is not writable: its send
+                // buffer is full)
+                let registered = epoll_entry(epfd, fd).is_some_and(|(ev, _)| ev & 1 != 0);
                 let byte = [7u8];
-                let w = unsafe { libc::send(b, byte.as_ptr().cast(), 1, libc::MSG_DONTWAIT) };
+                let w = unsafe { libc::send(slots[k].peer, byte.as_ptr().cast(), 1, libc::MSG_DONTWAIT) };
                 let o = if w != 1 {
                     json!("send-failed")
                 } else if !registered {
@@ -267,54 +379,56 @@ pub fn run(case: &Value) -> Vec<Value> {
                     std::thread::sleep(Duration::from_millis(2));
                     json!("noevent")
                 } else {
-                    match cx.wait_for(PATIENCE_MS, |m| matches!(m, Msg::Resume(_, _)), |_| {}) {
-                        Some(Msg::Resume(tok, hit)) => {
-                            let mut woken: Vec<u64> = Vec::new();
-                            let end = cx.wait_for(
-                                PATIENCE_MS,
-                                |m| *m == Msg::Resumed(tok),
-                                |m| {
-                                    if let Msg::Callback(c) = m {
-                                        woken.push(*c);
-                                    }
-                                },
-                            );
-                            if end.is_none() {
-                                json!("lost")
-                            } else {
-                                // let every resumed coroutine finish its wait before the next step
-                                let mut all_back = true;
-                                for c in &woken {
-                                    if cx.suspended.contains(c) {
-                                        let c = *c;
-                                        let r = cx.wait_for(
-                                            PATIENCE_MS,
-                                            |m| matches!(m, Msg::Returned(i, _) if *i == c),
-                                            |_| {},
-                                        );
-                                        all_back &= r.is_some();
-                                    }
-                                }
-                                if all_back {
-                                    let w: Vec<String> = woken.iter().map(u64::to_string).collect();
-                                    json!({"event": tok.to_string(), "hit": hit, "woken": w})
-                                } else {
-                                    json!("lost")
-                                }
-                            }
-                        }
-                        _ => json!("lost"),
-                    }
+                    observe_event(&mut cx)
                 };
-                drain(a);
+                drain(fd);
+                o
+            }
+            "ready" => {
+                // the peer reads everything: the slot's send buffer empties, the slot becomes
+                // writable (nothing is queued for it to read)
+                let registered = epoll_entry(epfd, fd).is_some_and(|(ev, _)| ev & 4 != 0);
+                drain(slots[k].peer);
+                let o = if registered {
+                    observe_event(&mut cx)
+                } else {
+                    std::thread::sleep(Duration::from_millis(2));
+                    json!("noevent")
+                };
+                fill(fd);
                 o
             }
             "del" => {
-                let fd = pairs[usize::try_from(as_u64(&op["fd"])).expect("fd")].0;
-                json!({"del": EventLoops::del_event(fd).is_ok()})
+                let r = match op["dir"].as_str() {
+                    Some("r") => EventLoops::del_read_event(fd),
+                    Some("w") => EventLoops::del_write_event(fd),
+                    _ => EventLoops::del_event(fd),
+                };
+                json!({"del": r.is_ok(), "k": kview(epfd, fd)})
+            }
+            "close" => {
+                let r = syscall::close(None, fd) == 0;
+                if slots[k].open {
+                    slots[k].open = false;
+                    unsafe {
+                        let _ = libc::close(slots[k].peer);
+                    }
+                }
+                json!({"close": r})
+            }
+            "reopen" => {
+                if !slots[k].open {
+                    slots[k].peer = open_slot(k);
+                    slots[k].open = true;
+                }
+                json!("reopened")
             }
             _ => json!("unknown-op"),
         };
+        if o == json!("lost") {
+            obs.push(json!("diverged"));
+            break;
+        }
         obs.push(o);
     }
     verif::set_observer(None);
